@@ -441,7 +441,17 @@ def w_ops(ctx, rng, i):
         okw = {} if so == 1 else {"order": so}
         if so > 1:
             tol, margin = 0.05, 4.0
-        if op == "rescale":
+        if op == "rescale" and so == 1 and dtype == np.float64 and cls != "BooleanImage" and rng.random() < 0.3:
+            # nearest-neighbour resampling by the reciprocal of a whole number (whole or per axis): every result pixel is a copy
+            # of the source pixel nearest to where the returned transform puts it - half a source pixel at most
+            ks = [int(v) for v in rng.integers(1, 5, d)]
+            if rng.random() < 0.5:
+                ks = [max(ks[0], 2)] * d
+            s = 1.0 / ks[0] if len(set(ks)) == 1 and rng.random() < 0.7 else tuple(1.0 / k for k in ks)
+            opts = {"reciprocal": max(ks), "per_axis": isinstance(s, tuple), "round": rnd, "order": 0}
+            tol = 0.5 + 1e-6
+            results.append(call(src.rescale, rt, s, round=rnd, order=0))
+        elif op == "rescale":
             s = float(rng.uniform(0.3, 3.0))
             opts = {"scale": round(s, 2), "round": rnd, "order": so}
             results.append(call(src.rescale, rt, s, round=rnd, **okw))
@@ -491,10 +501,12 @@ def w_ops(ctx, rng, i):
     elif op in ("rotate", "rotate_retain"):
         lmc = add_landmarks(rng, src, region=(S * 0.3, S * 0.7))
         th = float(rng.uniform(-360, 360))
+        if rng.random() < 0.3:
+            th = 90.0 * int(rng.integers(-9, 10))          # right angles, more than one turn and backwards included
         deg = bool(rng.random() < 0.5)
         retain = op == "rotate_retain"
         rnd = ["ceil", "floor", "round"][rng.integers(0, 3)]
-        opts = {"degrees": deg, "retain_shape": retain, "round": rnd, "quadrant": int((th % 360) // 90)}
+        opts = {"degrees": deg, "retain_shape": retain, "round": rnd, "quadrant": int((th % 360) // 90), "right_angle": th % 90 == 0}
         results.append(call(src.rotate_ccw_about_centre, rt, th if deg else float(np.deg2rad(th)), degrees=deg, retain_shape=retain, round=rnd))
     elif op == "mirror":
         lmc = add_landmarks(rng, src)
@@ -653,7 +665,12 @@ def w_ops(ctx, rng, i):
     Tknown = t if op in ("warp_tps", "warp_pwa", "warp_affine", "warp_alignment") else None
     for lv, (res, T) in enumerate(results):
         # nearest-neighbour mask sampling loses up to half a pixel of each level's own grid
-        band = 1.01 + (opts["downscale"] ** (lv + 1) if op in ("pyramid", "gaussian_pyramid") else 0.0)
+        # (a level's mask is sampled from the level below it: the half pixels of all the grids passed on the way add up,
+        # measured in source pixels through the sizes the levels really have)
+        band = 1.01
+        if op in ("pyramid", "gaussian_pyramid"):
+            pxs = [1.0] + [float(np.max((np.array(shp) - 1.0) / (np.array(r.shape) - 1.0))) for r, _ in results]
+            band = 0.51 + 0.5 * sum(pxs[:lv + 1])
         # interpolating warps and their reverse fits are exact at / between the control points: the landmark clause keeps a
         # tight bound of its own (the loose `tol` of smooth warps is for decoding pixel values only)
         judged += judge(ctx, src, res, T, W, b, half, op, opts, tol, smooth=smooth, margin=margin, rmargin=rmargin, only=only, mask_band=band, Tknown=Tknown,
